@@ -363,6 +363,9 @@ func (e *Engine) verifyFunc(fn *ssa.Function, con *Contract) *VC {
 			for _, r := range vc.topRets {
 				var leaked []string
 				for l, m := range r.st.locks {
+					if strings.HasPrefix(l, "#n:") {
+						continue
+					}
 					if _, atEntry := entry.locks[l]; !atEntry && m != 0 {
 						leaked = append(leaked, l)
 					}
